@@ -291,6 +291,53 @@ def rnd_script(rng, nops, big):
     return ";".join(ops)
 
 
+def growth_scripts(rng, top):
+    """Histories in which the NUMBER OF LINES of the store walks through every value 2..top (top >= 130: past two
+    steps of the line-pointer array, which ini.c grows 64 slots at a time), the crossing made by each operation that
+    adds lines:  one line (set: existing section, new key), two lines at once (set: new section AND new key; both
+    parities, so the pair starts at an even and at an odd count: 62+2, 63+2, 126+2, 127+2), and ini_buf_parse of a text of
+    exactly 63/64/65/127/128/129 lines followed by sets of every kind (add key, add section, replace in place,
+    replace by a longer value).  The store has no delete operation.  Like the random histories these are only
+    inputs: what the store must answer afterwards (enumeration, lookups, size, text, round trip) is decided by TLC
+    replaying the log against IniStore; ASan watches the accesses."""
+    def S(s, n, v): return "S %s %s %s" % (s.encode().hex(), n.encode().hex(), v.encode().hex() or "-")
+    def val(): return "".join(rng.choice("abcXYZ019 .") for _ in range(rng.choice([0, 1, 2, 3, 7])))
+    edge = {c for m in range(64, top + 1, 64) for c in (m - 1, m, m + 1)}
+    look = ";".join(["E", "C", "G 7330 6b30", "N r 0"])           # observations (section s0, key k0)
+    out = []
+    # (a) one line per set
+    ops = [S("s0", "k0", val())]; cnt = 2
+    while cnt < top + 1:
+        ops.append(S("s0", "k%d" % cnt, val())); cnt += 1
+        if cnt in edge: ops.append(look)
+    ops += [S("s0", "k5", "replaced-by-a-longer-value-" * 3), S("s0", "k70", ""), "E", "C", "RT", "N r -1"]
+    out.append(("set-newkey", ";".join(ops)))
+    # (b) two lines per set, from an even and from an odd count
+    for par in (0, 1):
+        ops = []; cnt = 0
+        if par: ops.append("P " + b";c\n".hex()); cnt = 1
+        while cnt < top + 1:
+            ops.append(S("s%d" % cnt, "k", val())); cnt += 2
+            if cnt in edge or cnt - 1 in edge: ops.append(look.replace("7330 6b30", ("s%d" % (cnt - 2)).encode().hex() + " 6b"))
+        ops += [S("s%d" % (2 + par), "k2", val()), "E", "C", "RT", "N r -1"]
+        out.append(("set-newsect-parity%d" % par, ";".join(ops)))
+    # (c) parse of a text of exactly n lines, then sets
+    for n in sorted(edge):
+        for first in ("newsect", "newkey"):
+            tl = ["[s0]", "k0=" + val()]
+            while len(tl) < n:
+                r = rng.random()
+                tl.append("" if r < 0.08 else ";c" if r < 0.14 else "[t%d]" % len(tl) if r < 0.24 else "k%d=%s" % (len(tl), val()))
+            if tl[-1] == "": tl[-1] = "last=1"
+            text = "\n".join(tl) + rng.choice(["\n", "\r\n", ""])          # a last line without end-of-line is a line too
+            adds = [S("zz", "k", val()), S("s0", "knew", val())]
+            if first == "newkey": adds.reverse()
+            ops = ["P " + text.encode().hex(), "C"] + adds + [look, S("zy", "k", "v"), S("s0", "k0", "longer-" * 6), S("zz", "k", ""), "E", "C", "N r -1"]
+            if n in (63, 129): ops.append("RT")
+            out.append(("parse-%d-then-%s" % (n, first), ";".join(ops)))
+    return out
+
+
 def trace_part(ctx, exes):
     rng = random.Random(ctx.seed * 7919 + 17)
     nexec, nops = (12, 100) if ctx.quick else (90, 160)
@@ -298,18 +345,25 @@ def trace_part(ctx, exes):
     for i in range(nexec):
         big = (i % 7 == 3)              # parse-heavy executions cross the 64/128-line reallocation of the line array
         scripts.append(rnd_script(rng, nops if not big else nops // 2, big))
+    nrandom = len(scripts)
+    growth = growth_scripts(rng, 130 if ctx.quick else 260)
+    glabel = {nrandom + i: g[0] for i, g in enumerate(growth)}
+    scripts += [g[1] for g in growth]
     d = common.scratch()
     total_ev = 0; seg_info = []     # (build, script index, first line, last line)
     path = os.path.join(d, "trace.ndjson")
     with open(path, "w") as f:
         nline = 0
-        for bname, exe in exes:
-            res = common.batch_run(exe, scripts, timeout=600)
-            for i, a in enumerate(res):
+        for bi, (bname, exe) in enumerate(exes):
+            # the growth histories need the ASan build (first in the list); the quick tier runs them only there
+            todo = list(range(len(scripts) if (bi == 0 or not ctx.quick) else nrandom))
+            res = common.batch_run(exe, [scripts[i] for i in todo], timeout=600)
+            for i, a in zip(todo, res):
                 rp = {"build": bname, "script": scripts[i]}
+                if i in glabel: rp["growth_history"] = glabel[i]
                 if isinstance(a, dict):
                     kind, fn, raw = crash_key(exe, scripts[i], a)
-                    fail_once(ctx, "ini:%s:%s:random-history" % (kind, fn), raw, rp)
+                    fail_once(ctx, "ini:%s:%s:%s" % (kind, fn, "line-array-growth" if i in glabel else "random-history"), raw, rp)
                     continue
                 try:
                     evs = json.loads(a)
@@ -356,6 +410,11 @@ def trace_part(ctx, exes):
     ctx.log("trace validation: %d executions, %d events, %d accepted by the repaired model, tlc %.0fs"
             % (len(seg_info), total_ev, ok_seg, r.wall))
     ctx.add(samples=[{"random_history_head": scripts[0][:300]}])
+    gseg = [x for x in seg_info if x[1] in glabel]
+    ctx.cov["line_array_growth_histories"] = {"executions": len(gseg), "kinds": sorted({glabel[x[1]] for x in gseg}),
+                                               "events": sum(x[3] - x[2] for x in gseg)}
+    if len(gseg) < len(growth):
+        ctx.log("growth histories: only %d of %d executions reached the validation" % (len(gseg), len(growth)))
 
 
 def run(ctx):
